@@ -42,7 +42,7 @@ func oneC05(t *testing.T, x Exp, pid string, order string) (msg string) {
 
 func oneC05obs(t *testing.T, x Exp, pid string, order string, out *c05obs) (msg string) {
 	synctest.Test(t, func(t *testing.T) {
-		rec := &recorder{fail: strings.HasSuffix(order, "encoder-fails")}
+		rec := &recorder{fail: strings.HasSuffix(order, "encoder-fails"), kind: len(x.Line) + len(pid)} // error kinds in rotation
 		ew := auditevent.NewAuditEventWriter(rec)
 		logins := make(chan common.RemoteUserLogin) // unbuffered, like cmd/namedpipe.go
 		reg := prometheus.NewRegistry()
